@@ -184,7 +184,16 @@ fn gen_ptr_fields(rng: &mut Rng, bits: u32) -> String {
 	format!("va={} off={} so={} i={} sz={}", va, off, so, i, sz)
 }
 
-fn gen(rng: &mut Rng, _i: u64) -> String {
+fn gen(rng: &mut Rng, i: u64) -> String {
+	// the first 9 * 40 cases sweep every key of every enum1! table of src/stringify.rs deterministically (fourth audit, H1:
+	// random draws left 40 of the 52 rows untouched at quick size, and the regenerated mirror Model/WrapStrTab.v follows
+	// the source): values 0..33 and the six wide keys, asked for the value's own name and its parse back
+	const SWEEP: [u64; 40] = [0, 1, 2, 3, 4, 5, 6, 7, 8, 9, 10, 11, 12, 13, 14, 15, 16, 17, 18, 19, 20, 21, 22, 23, 24, 25, 26, 27, 28, 29, 30, 31, 32, 33,
+		0x014c, 0x8664, 0x0200, 0x10b, 0x20b, 0x107];
+	if i < 9 * 40 {
+		let ty = ENUM_TYPES[(i / 40) as usize];
+		return format!("enum ty={} v={} s={} p=0", ty, SWEEP[(i % 40) as usize], hs("*"));
+	}
 	match rng.below(20) {
 		0 | 1 | 2 => format!("wfmt ws={}", hex_of_words(&gen_units(rng, 20))),
 		3 | 4 => {
